@@ -53,7 +53,7 @@ class llc (packet_base):
     s = "[LLC"
     if self.has_snap:
       s += "+SNAP t:%04x" % (self.eth_type,)
-    else:
+    elif self.ssap is not None and self.dsap is not None:
       s += " ssap:0x%02x dsap:0x%02x c:%s" % (self.ssap, self.dsap,
                                               self.control)
     s += "]"
